@@ -151,8 +151,10 @@ Definition memb (x : nat) (l : list nat) : bool := match index_of x l with Some 
 
 Definition nonmarked (nt : nat) (marked : list nat) : list nat := filter (fun k => negb (memb k marked)) (seq 0 nt).
 
-Definition line_adaptive (p : list point) (t : list (list nat)) (marked : list nat) : list point * list (list nat) :=
-  let nv := S (tab_max t) in         (* np.max(t) + 1 *)
+(* [base] = the number given to the first new midpoint: p.shape[1] (after N50) — np.max(t) + 1 before, which is wrong
+   when the point array has unused trailing points *)
+Definition line_adaptive (base : nat) (p : list point) (t : list (list nat)) (marked : list nat) : list point * list (list nat) :=
+  let nv := base in
   let mids := map (fun i => nv + i) (seq 0 (length marked)) in
   (p ++ map (fun k => ent_mean 1 p (nth k t [])) marked,
    map (fun k => nth k t []) (nonmarked (length t) marked)
